@@ -171,10 +171,19 @@ func newRtWorldBackoff(c *mon.Case, state, withCmp, retry bool, behave rtBehavio
 				cmp = func(a, b int) bool { return (a+1)/2 == (b+1)/2 }
 			}
 		}
-		w.src = routine.NewStateRoutineContainer[int](cmp, opts...)
+		if c.Index%4 == 2 {
+			// the logging constructors only add an exit callback that logs
+			w.src = routine.NewStateRoutineContainerWithLogger[int](cmp, discardLogger(), opts...)
+		} else {
+			w.src = routine.NewStateRoutineContainer[int](cmp, opts...)
+		}
 		w.src.SetStateRoutine(func(ctx context.Context, st int) error { return w.run(ctx, st) })
 	} else {
-		w.rc = routine.NewRoutineContainer(opts...)
+		if c.Index%4 == 2 {
+			w.rc = routine.NewRoutineContainerWithLogger(discardLogger(), opts...)
+		} else {
+			w.rc = routine.NewRoutineContainer(opts...)
+		}
 	}
 	return w
 }
